@@ -83,37 +83,59 @@ func vReconstruct(r, dst *Ring, buf Poly, muc ModUpConstants, xs *big.Int, id st
 	return vCRTLift(new(big.Int).Sub(sum, xs), mods, targets, id)
 }
 
+// vMultSumConcrete discharges the multSum contract for one concrete table set (symbolic y and v).
+func vMultSumConcrete(muc ModUpConstants, src, dst []*SubRing) {
+	level := len(src) - 1
+	var ys [8][32]uint64
+	var v, res, rlo, rhi [8]uint64
+	for i := 0; i <= level; i++ {
+		ys[0][i] = vU64("y")
+		vAssume(ys[0][i] < src[i].Modulus)
+	}
+	v[0] = vU64("v")
+	vAssume(v[0] <= uint64(level+1))
+	for j, s := range dst {
+		p := s.Modulus
+		multSum(level, &res, &rlo, &rhi, &v, &ys[0], &ys[1], &ys[2], &ys[3], &ys[4], &ys[5], &ys[6], &ys[7], p, s.MRedConstant, muc.vtimesqmodp[j], muc.qoverqimodp[j])
+		want := new(big.Int)
+		for i := 0; i <= level; i++ {
+			want.Add(want, new(big.Int).Mul(vB(ys[0][i]), vB(muc.qoverqimodp[j][i])))
+		}
+		want.Add(want, vShl64(muc.vtimesqmodp[j][v[0]]))
+		vAssert(vCong(vShl64(res[0]), want, p), "multSum-congruence")
+	}
+}
+
 func VerifH_C02_MultSumContract() {
 	vConfig("backend", "int")
-	for _, cs := range VerifSetup_BEChains(vTier()) {
-		be := VerifSetup_BasisExtender(cs.N, cs.Q, cs.P)
-		type dir struct {
-			muc      ModUpConstants
-			src, dst *Ring
-		}
-		lq, lp := len(cs.Q)-1, len(cs.P)-1
-		for _, d := range []dir{{be.constantsQtoP[lq], be.ringQ, be.ringP}, {be.constantsPtoQ[lp], be.ringP, be.ringQ}} {
-			level := d.src.level
-			var ys [8][32]uint64
-			var v, res, rlo, rhi [8]uint64
-			sumY := make([]uint64, level+1)
-			for i := 0; i <= level; i++ {
-				ys[0][i] = vU64("y")
-				vAssume(ys[0][i] < d.src.SubRings[i].Modulus)
-				sumY[i] = ys[0][i]
+	// the concrete tables of every chain used by a C02 harness: basis extender (both directions, every level) and
+	// every table of the decomposer; y and the correction index v are symbolic
+	chains := append(VerifSetup_BEChains(vTier()), vBECase{8, []uint64{97, 193, 257, 353, 449}, []uint64{577, 641, 673}})
+	for ci, cs := range chains {
+		if ci < len(chains)-1 {
+			be := VerifSetup_BasisExtender(cs.N, cs.Q, cs.P)
+			for lq := range cs.Q {
+				vMultSumConcrete(be.constantsQtoP[lq], be.ringQ.SubRings[:lq+1], be.ringP.SubRings)
 			}
-			v[0] = vU64("v")
-			vAssume(v[0] <= uint64(level+1))
-			for j, s := range d.dst.SubRings {
-				p := s.Modulus
-				multSum(level, &res, &rlo, &rhi, &v, &ys[0], &ys[1], &ys[2], &ys[3], &ys[4], &ys[5], &ys[6], &ys[7], p, s.MRedConstant, d.muc.vtimesqmodp[j], d.muc.qoverqimodp[j])
-				want := new(big.Int)
-				for i := 0; i <= level; i++ {
-					want.Add(want, new(big.Int).Mul(vB(sumY[i]), vB(d.muc.qoverqimodp[j][i])))
+			for lp := range cs.P {
+				vMultSumConcrete(be.constantsPtoQ[lp], be.ringP.SubRings[:lp+1], be.ringQ.SubRings)
+			}
+		}
+		if len(cs.P) < 2 {
+			continue
+		}
+		dec := VerifSetup_Decomposer(cs.N, cs.Q, cs.P)
+		all := append(append([]*SubRing(nil), dec.ringQ.SubRings...), dec.ringP.SubRings...)
+		for lp := range dec.ModUpConstants {
+			nbPi := lp + 2
+			for d := range dec.ModUpConstants[lp] {
+				for k, muc := range dec.ModUpConstants[lp][d] {
+					src := dec.ringQ.SubRings[d*nbPi : d*nbPi+k+2]
+					// destination table: all Q moduli followed by the P moduli of this LevelP
+					dst := append(append([]*SubRing(nil), dec.ringQ.SubRings...), dec.ringP.SubRings[:nbPi]...)
+					_ = all
+					vMultSumConcrete(muc, src, dst)
 				}
-				want.Add(want, vShl64(d.muc.vtimesqmodp[j][v[0]]))
-				vAssert(vCong(vShl64(res[0]), want, p), "multSum-congruence")
-				vAssert(res[0] < 4*p, "multSum-below-4p")
 			}
 		}
 	}
@@ -329,7 +351,9 @@ func VerifH_C02_Decompose() {
 	vConfig("backend", "int")
 	vStub("MRed", "contract:mred")
 	vStub("multSum", "call:vStubMultSum")
-	for _, cs := range VerifSetup_BEChains(vTier()) {
+	// plus five Q primes with three P primes: partial last RNS digits made of two primes (levelQ = 1, 4)
+	chains := append(VerifSetup_BEChains(vTier()), vBECase{8, []uint64{97, 193, 257, 353, 449}, []uint64{577, 641, 673}})
+	for _, cs := range chains {
 		if len(cs.P) < 2 {
 			continue
 		}
